@@ -158,7 +158,7 @@ Qed.
 Print Assumptions c11_limit_custody_msgs.
 Example c11_limit_msgs_nonvacuous :
   Forall is_msg [Deposit 0 1 2 5 0 1000000; Withdraw 0 1 2 5 0 2900000; Cancel 1 1 2 5; Withdraw 0 1 2 5 1 7] /\
-  ~ is_msg (AutoFill 2 1 5 1000000 [0] 0 true) /\ ~ is_msg (Cancel MOD 1 2 5).
+  ~ is_msg (AutoFill 2 1 5 [(0, 1000000)] 0 true) /\ ~ is_msg (Cancel MOD 1 2 5).
 Proof. split; [repeat constructor; cbn; lia|]. split; cbn; unfold MOD; [tauto|lia]. Qed.
 
 (* the executable predicates that the runner evaluates on the implementation's observations are
@@ -238,57 +238,58 @@ Proof. vm_compute. repeat split. Qed.
 (* C11-F2: the automatic fill of a record equal to the auction debt deletes the record AND
    reduces the total (on the original code: total 1 000 000, sum of deposits 0) *)
 Example c11_limit_total_regression :
-  let ops := [Deposit 0 1 2 5 0 1000000; AutoFill 2 1 5 1000000 [0] 906000 true] in
+  let ops := [Deposit 0 1 2 5 0 1000000; AutoFill 2 1 5 [(0, 1000000)] 1000000 true] in
   let s := lrun cfg0 (lempty rich) ops in
-  tot (2, 1) s = 0 /\ sum_market (2, 1) s = 0 /\ recs s = [] /\ led s MOD 0 = 94000 /\
+  tot (2, 1) s = 0 /\ sum_market (2, 1) s = 0 /\ recs s = [] /\ led s MOD 0 = 0 /\
   env_run cfg0 (lempty rich) ops.
 Proof. vm_compute. repeat split; try lia; discriminate. Qed.
 
 (* the thorough-tier history (corpus case 3): a record of 1 250 000 is filled against the debt
    3 120 000; a new deposit of 1 000 000 then meets the remaining 1 870 000 when the collateral has
    run short: PlaceDutchAuctionBid cuts the bid down to 104 800, the app reserve pays the rest INTO
-   the module, LimitOrderBid charges the record in full.  The settlement's effect on the module's
-   free coins is an outflow of 104 800; measured without setting the booked penalty aside it is a
-   net INFLOW (the sign the model used to turn into a panic): both are steps of the model, both
-   meet the environment hypothesis of the custody theorem *)
+   the module, and (fixes/C10-F5) the limit bid is charged the 104 800 that were bid: 895 200 stay on
+   the record, backed (the original code charged the record in full).  Measured without setting the
+   booked penalty aside the settlement is a net INFLOW (the sign the model once turned into a panic):
+   both are steps of the model, both meet the environment hypothesis of the custody theorem *)
 Example c11_limit_fill_cut_down_regression :
-  let ops := [Deposit 0 1 2 9 0 1250000; AutoFill 2 1 9 3120000 [0] 1250000 true;
-              Deposit 0 1 2 9 0 1000000; AutoFill 2 1 9 1870000 [0] 104800 true] in
+  let ops := [Deposit 0 1 2 9 0 1250000; AutoFill 2 1 9 [(0, 1250000)] 1250000 true;
+              Deposit 0 1 2 9 0 1000000; AutoFill 2 1 9 [(0, 104800)] 104800 true] in
   let s := lrun cfg0 (lempty rich) ops in
-  recs s = [] /\ tot (2, 1) s = 0 /\ led s MOD 0 = 895200 /\ led s 0 0 = 7750000 /\
+  dep (mkK 2 1 9 0) s = 895200 /\ tot (2, 1) s = 895200 /\ led s MOD 0 = 895200 /\ led s 0 0 = 7750000 /\
   env_run cfg0 (lempty rich) ops /\
-  (exists s', lstep cfg0 (lrun cfg0 (lempty rich) (firstn 3 ops)) (AutoFill 2 1 9 1870000 [0] (-15200) true) = Ok s' /\
-              recs s' = [] /\ tot (2, 1) s' = 0 /\ led s' MOD 0 = 1015200) /\
-  env_ok (lrun cfg0 (lempty rich) (firstn 3 ops)) (AutoFill 2 1 9 1870000 [0] (-15200) true).
+  (exists s', lstep cfg0 (lrun cfg0 (lempty rich) (firstn 3 ops)) (AutoFill 2 1 9 [(0, 104800)] (-15200) true) = Ok s' /\
+              dep (mkK 2 1 9 0) s' = 895200 /\ tot (2, 1) s' = 895200 /\ led s' MOD 0 = 1015200) /\
+  env_ok (lrun cfg0 (lempty rich) (firstn 3 ops)) (AutoFill 2 1 9 [(0, 104800)] (-15200) true).
 Proof.
   vm_compute. repeat split; try lia; try discriminate.
   eexists. split; [reflexivity|]. repeat split.
 Qed.
 
-(* corpus case 4: a record of 3 000 000 above the debt 1 120 000 of an auction whose collateral is
-   worth 906 000: the record is charged the whole debt although the bid placed is 906 000 (the
-   difference stays in the module, owned by no record: reported under C10); total = sum of
-   deposits and custody hold *)
-Example c11_limit_fill_overcharge_regression :
-  let ops := [Deposit 0 1 2 9 0 3000000; AutoFill 2 1 9 1120000 [0] 906000 true] in
+(* corpus case 4 (C10-F5, fixed): a record of 3 000 000 above the debt 1 120 000 of an auction whose
+   collateral is worth 906 000: the bid placed is 906 000 and that is what the record is charged (the
+   original code charged the whole debt; the difference stayed in the module, owned by no record);
+   a bid above what the record holds is not a closure of the code (ErrorMaxBidAmount) *)
+Example c11_limit_fill_charge_regression :
+  let ops := [Deposit 0 1 2 9 0 3000000; AutoFill 2 1 9 [(0, 906000)] 906000 true] in
   let s := lrun cfg0 (lempty rich) ops in
-  dep (mkK 2 1 9 0) s = 1880000 /\ tot (2, 1) s = 1880000 /\ led s MOD 0 = 2094000 /\
-  env_run cfg0 (lempty rich) ops.
+  dep (mkK 2 1 9 0) s = 2094000 /\ tot (2, 1) s = 2094000 /\ led s MOD 0 = 2094000 /\
+  env_run cfg0 (lempty rich) ops /\
+  lstep cfg0 (lrun cfg0 (lempty rich) (firstn 1 ops)) (AutoFill 2 1 9 [(0, 3000001)] 0 true) = Err 32.
 Proof. vm_compute. repeat split; try lia; discriminate. Qed.
 
 (* non-vacuity: two depositors, a fee-bearing partial withdraw, an automatic fill over both
-   records of the premium (the first is charged the whole auction debt, the second -- against
-   the same, never re-read, debt -- too), a refused over-withdraw, a cancel; the environment
+   records of the premium (the first is used up by a partial bid, the second closes the auction with
+   a part of its amount), a refused over-withdraw, a fee-bearing withdraw; the environment
    hypotheses of the custody theorem are met and the state is not trivial *)
 Definition cfg1 : cfg := mkCfg [(2, 0); (1, 1); (3, 2)] 5000000000000000 10000000000000000.
 Definition ex_ops : list lop :=
   [Deposit 0 1 2 5 0 1000000; Deposit 1 1 2 5 0 3000000; Withdraw 0 1 2 5 0 400000;
-   AutoFill 2 1 5 500000 [0; 1] 700000 true; Withdraw 1 1 2 5 0 2500001; Cancel 0 1 2 5].
+   AutoFill 2 1 5 [(0, 600000); (1, 100000)] 700000 true; Withdraw 1 1 2 5 0 2900001; Withdraw 1 1 2 5 0 400000].
 Example c11_limit_nonvacuous :
   fee_wf cfg1 /\ env_run cfg1 (lempty rich) ex_ops /\
   let s := lrun cfg1 (lempty rich) ex_ops in
   tot (2, 1) s = 2500000 /\ dep (mkK 2 1 5 1) s = 2500000 /\ dep (mkK 2 1 5 0) s = 0 /\
-  led s 0 0 = 10000000 - 1000000 + 396000 + 99500 /\ led s MOD 0 = 2804500.
+  led s 0 0 = 10000000 - 1000000 + 396000 /\ led s 1 0 = 10000000 - 3000000 + 396000 /\ led s MOD 0 = 2508000.
 Proof.
   split; [unfold fee_wf, cfg1; cbn; pose proof P18_pos; split; split; try lia;
           change P18 with 1000000000000000000; lia|].
